@@ -81,7 +81,7 @@ impl W {
         let empty: Vec<u8> = Vec::new();
         let s0 = case.first().unwrap_or(&empty);
         let s1 = case.get(1).unwrap_or(&empty);
-        if s0.first().copied().unwrap_or(0) >= 205 {
+        if s0.first().copied().unwrap_or(0) >= 180 {
             // one program in five comes from the layout-directed generator (nested records and
             // enums of mixed field sizes, copies, field writes, equality, strings)
             let mut g = crate::lgen::LGen::new(&s0[1..], s1.first().copied().unwrap_or(0) % 2 == 0);
@@ -320,7 +320,7 @@ impl Prop for C20P {
         "C20"
     }
     fn rule(&self) -> String {
-        "non-recursive generated programs (scalars, records, enums, options, strings, lists, host calls; one in five from the layout-directed generator of C02: nested records and enums of mixed field sizes, copies, field writes, equality, strings) lowered once; the LIR evaluator runs main on up to 4 input vectors under catch_unwind, then the package built from the same lowered IR is called with the same arguments; oracle: if the evaluator completes, its return value and host-call log equal the compiled code's; a panic counts as 'stopped loudly'. Non-trivial: the evaluator completed and the executed path contains a `!`, a comparison, a script call, an aggregate access or a host call; distinct by program text".into()
+        "non-recursive generated programs (scalars, records, enums, options, strings, lists, host calls; three in ten from the layout-directed generator of C02: nested records and enums of mixed field sizes, copies, field writes, equality, strings) lowered once; the LIR evaluator runs main on up to 4 input vectors under catch_unwind, then the package built from the same lowered IR is called with the same arguments; oracle: if the evaluator completes, its return value and host-call log equal the compiled code's; a panic counts as 'stopped loudly'. Non-trivial: the evaluator completed and the executed path contains a `!`, a comparison, a script call, an aggregate access or a host call; distinct by program text".into()
     }
     fn assumptions(&self) -> Vec<String> {
         vec![
